@@ -57,6 +57,31 @@ theorem C03_enum_minimal (e : Enum) (b : Nat) (h : e.packedSize = some b) (hm : 
     (2 : Int) ^ (b - 1) ≤ e.maxValue ∧ e.maxValue < (2 : Int) ^ b :=
   enumBits_minimal e b h hm
 
+/-! ## the rpc layer (FcpModel/Rpc.lean = `generate_rpc`) -/
+
+/-- the wrapper structs and id enums the C++ generator derives from the services cannot change
+the wire format of a user type: every type that resolves in the schema resolves to the same
+closed type in the extended schema the headers are rendered from -/
+theorem C03_rpc_keeps_user_types (S S' : Schema) (h : Rpc.rpc S = some S') (fuel : Nat) (t : STy) (ty : Ty)
+    (hr : resolve S fuel t = some ty) : resolve S' fuel t = some ty :=
+  Rpc.rpc_resolve S S' h fuel t ty hr
+
+/-- **accepted ⇒ the rpc layer generates**: a schema that passes the general checks and the
+C++ plug-in's service check (and has at least one method per service, the grammar's rule) makes
+`generate_rpc` return (before the repairs `35b0f7d` it raised for ids above 255 and for payloads
+that are no declared structs, although the schema was accepted) -/
+theorem C03_accepted_generates (fuel : Nat) (S : Schema) (h : verifyModel .cpp fuel S = .ok ())
+    (hm : ∀ sv ∈ S.services, sv.methods ≠ []) : (Rpc.rpc S).isSome :=
+  Rpc.rpc_total S ((verify_iff_cpp fuel S).mp h).2 hm
+
+/-- non-vacuity: one service, one struct used as input and as output, both wrappers present -/
+def C03_rpcS : Schema := {
+  structs := [{ name := "A", fields := [{ name := "x", id := 0, ty := .u 8 }] }],
+  services := [{ name := "MotorControl", id := 1, methods := [⟨"m", 0, "A", "A"⟩] }] }
+example : (verifyModel .cpp 5 C03_rpcS).toOption = some () := by decide
+example : ((Rpc.rpc C03_rpcS).map fun S' => (S'.structs.map (·.name), S'.enums.map (·.name))) =
+    some (["A", "AInput", "AOutput"], ["ServiceId", "MotorControlMethodId"]) := by decide
+
 /-! non-vacuity: `struct { a: i3, b: u5, c: [i7,2]? }` with negative values -/
 def C03_t : Ty := .field "a" 0 (.sint 3) (.field "b" 1 (.uint 5) (.field "c" 2 (.opt (.arr (.sint 7) 2)) .unit))
 def C03_v : Val := .cons (.int (-4)) (.cons (.int 21) (.cons (.some (.cons (.int (-64)) (.cons (.int 63) .nil))) .nil))
